@@ -165,7 +165,7 @@ pub fn lazy(cx: &mut Ctx) {
     for (name, e) in elems.iter() {
         for route in 0..6u32 {
             for pre in 0..5u32 {
-                for op in 0..9u32 {
+                for op in 0..16u32 {
                     for post in 0..3u32 {
                         let d = || format!("element {}, route {}, forcing-before {}, op {}, forcing-after {}", name, route, pre, op, post);
                         let cs = new_cs();
@@ -202,9 +202,17 @@ pub fn lazy(cx: &mut Ctx) {
                             4 => (v.clone() + ov.clone(), *e + other),
                             5 => (v.clone() - &ov, *e - other),
                             6 => { let mut t = v.clone(); t += &ov; t -= ov.clone(); t += other; (t, *e + other) }
+                            9 => (v.clone() - ov.clone(), *e - other),
+                            10 => (v.clone() + &ov, *e + other),
+                            11 => { let mut t = v.clone(); t -= &ov; (t, *e - other) }
+                            12 => { let mut t = v.clone(); t += ov.clone(); (t, *e + other) }
+                            13 => (v.clone() - other, *e - other),
+                            14 => (v.clone() + other, *e + other),
+                            15 => { let mut t = v.clone(); t -= other; (t, *e - other) }
                             7 => (ElementVar::conditionally_select(&Boolean::constant(pre % 2 == 0), &v, &ov).unwrap(), if pre % 2 == 0 { *e } else { other }),
-                            _ => { let bits: Vec<Boolean<Fq>> = [true, true, false, true].iter().map(|b| Boolean::new_witness(cs.clone(), || Ok(*b)).unwrap()).collect();
+                            8 => { let bits: Vec<Boolean<Fq>> = [true, true, false, true].iter().map(|b| Boolean::new_witness(cs.clone(), || Ok(*b)).unwrap()).collect();
                                    (v.scalar_mul_le(bits.iter()).unwrap(), *e * decaf377::Fr::from(11u64)) }
+                            _ => unreachable!(),
                         };
                         force(&w, [0u32, 3, 4][post as usize], cx, &want);
                         cx.eq("result encoding == native", &d, val(&w.compress_to_field().unwrap().value().unwrap()), enc_of(&want));
